@@ -160,6 +160,17 @@ theorem pending_never_removed {cfg : Cfg} {s s' : St} {m : Mem} {o : Op} {ops : 
               | none => simp [hb] at hrm
               | some p => obtain ⟨n, c⟩ := p; simp [hb] at hrm
             · have := hco _ hrm; simp [FsOp.isRemoveTable] at this
+  | flushFail name =>
+    simp only [runOp] at ho
+    cases hc : flushFail m name with
+    | none => simp [hc] at ho
+    | some r =>
+      obtain ⟨m', ops'⟩ := r
+      simp only [hc, Option.some.injEq, Prod.mk.injEq] at ho
+      obtain ⟨_, rfl⟩ := ho
+      have := (flushFail_ok hinv hc).1
+      subst this
+      simp at hrm
   | edit name logs =>
     simp only [runOp] at ho
     cases hc : editCommit m name logs with
